@@ -78,6 +78,10 @@ theorem specReply_table (o : UInt8) :
   · simp [specReply, DO, DONT, WILL]
   · simp [specReply, DO, DONT, WILL, WONT]
 
+/-- the constants regenerated from the source are the protocol's (RFC 854 / 858) -/
+theorem consts_are_rfc : IAC = 255 ∧ DONT = 254 ∧ DO = 253 ∧ WONT = 252 ∧ WILL = 251 ∧ NULL = 0 ∧
+    SUPPRESS_GO_AHEAD = 3 := by decide
+
 /-- the generated limit is the one the property speaks about ("up to ten negotiation commands") -/
 theorem limit_is_ten : syncLimit = 10 ∧ asyncLimit = 10 := by decide
 
